@@ -37,12 +37,12 @@ execute = L.execute
 
 def check(sc, r):
     faulty = sc["config"] == "faulty"
-    out = C.generic_thread_death(r, ID)
-    out += L.check_liveness(ID, r, sc)
+    out, dead = L.thread_deaths(ID, r)
+    out += L.check_liveness(ID, r, sc, skip=dead)
     if r.failure:
         return out
-    out += L.check_single_outcome(ID, r)
-    out += L.check_agreement(ID, r, faulty)
+    out += L.check_single_outcome(ID, r, skip=dead)
+    out += L.check_agreement(ID, r, faulty, skip=dead)
     return out
 
 
